@@ -47,11 +47,13 @@ def _error_context_never_raises(text: str, p: int) -> bool:
     return lineno >= 1 and col >= 1 and len(line) <= len(text)
 
 
-def _join_with_limit_respects_limit(a: str, b: str, c: str, n: int, limit: int) -> bool:
+def _join_with_limit_renders(a: str, b: str, c: str, n: int, limit: int) -> bool:
     """
     pre: len(a) <= 3 and len(b) <= 3 and len(c) <= 3 and 0 <= n <= 3 and -1 <= limit <= 14
     post: _
     """
     items = [a, b, c][:n]
     r = join_with_limit(items, ", ", " or ", limit)
-    return isinstance(r, str) and (limit <= 0 or len(r) <= limit)
+    # C13 asks that message building never raises; the docstring's length promise is not part of the property
+    # (and does not quite hold: the result can exceed the limit by len(last_separator) - len(separator))
+    return isinstance(r, str)
